@@ -22,6 +22,7 @@ EXPLANATION = (
     'offset that turns absolute local paths into object names (length of the scan root itself); idempotence constants of the delete methods; taint rule: an object '
     'name reaches a request URL or the B2 file-name header only through urllib.parse.quote, and reaches JSON bodies unquoted. Rules C13.R1-R5.'
     ' Added with the seeded-defect rounds: flag-sensitive pagination rule on the CFG, Local prefix scan on every path and links followed, B2 bucket record from the API fields, download_stream cuts the destination before the first write (length of the open descriptor), wrappers forward *args/**kwargs, local listing error discipline.'
+    ' Round 6: error hooks read the response body on every path, iter_chunks ends on an empty read only, list_files translates os.sep only, adapter delete discipline.'
 )
 NOT_DECIDED = 'equality with a name->bytes map over operation histories, page-count independence, B2 hide-marker semantics (needs the services or fakes to execute)'
 TRUSTED = ['urllib.parse.quote percent-encodes every character outside the unreserved set and "/"', 'the services\' listing semantics', 'CPython ast']
